@@ -59,6 +59,10 @@ func c15Configs(thorough bool) []lockCfg {
 	}
 	// a zero-weight token that still has a threshold: dropping below it is exiting all the same
 	cs = append(cs, lockCfg{Name: "v0=3-alone-max1-tk2-weightless-with-threshold", Powers: []uint64{3, 3}, MaxValidators: 1, Tk2Weight: 0, Tk2Threshold: 1, Candidates: 3})
+	// block times with a sub-second part (every consensus time has one): a request made at s+0.7
+	// matures at s+0.7+period, not at the whole second before it; fast blocks land inside that
+	// last fraction of a second
+	cs = append(cs, lockCfg{Name: "sub-second-block-times", Powers: []uint64{3, 2}, MaxValidators: 2, Tk2Weight: 1, Tk2Threshold: 0, Candidates: 3, SubSecond: true})
 	return cs
 }
 
@@ -79,6 +83,15 @@ func c15Menu(c lockCfg, thorough bool) func(w *engb.World, st *engb.LState, dept
 		{Kind: "unlock", Val: 0, Token: 1, Amt: "4"},
 		{Kind: "threshold", Token: 0, Amt: amt(3)},
 	}
+	if c.SubSecond {
+		sub := []engb.LBlock{
+			{DtMs: 700, Ops: []engb.LOp{ops[0]}},
+			{DtMs: 700, Ops: []engb.LOp{ops[1]}},
+			{Dt: 1, DtMs: 1, Ops: []engb.LOp{ops[0]}},
+			{Dt: 9, DtMs: 400}, {DtMs: 200}, {DtMs: 300}, {Dt: 10}, {Dt: 19, DtMs: 999}, {Dt: 1},
+		}
+		return func(w *engb.World, st *engb.LState, depth int) []engb.LBlock { return sub }
+	}
 	base := singleOpBlocks(ops, []int64{1, 9, 10, 20, 30})
 	base = append(base,
 		engb.LBlock{Dt: 1, Ops: burst(17)},
@@ -95,6 +108,8 @@ func c15Menu(c lockCfg, thorough bool) func(w *engb.World, st *engb.LState, dept
 			engb.LBlock{Dt: 1, Ops: []engb.LOp{{Kind: "unlock", Val: 2, Token: 0, Amt: "1"}}},
 		)
 	}
+	// the chain restarted from an exported state in mid-history: for the reference model a no-op
+	base = append(base, engb.LBlock{Dt: 1, Reimport: true})
 	return func(w *engb.World, st *engb.LState, depth int) []engb.LBlock { return base }
 }
 
